@@ -209,26 +209,41 @@ func c18BigList(c *Ctx) (evals int64) {
 			}
 			add("10.0.0."+fmt.Sprint(k)+" "+strings.Join(names, " "), names...)
 		}
-		e := urlfilter.NewDNSEngine(stringStorage(joinLines(lines) + "\n"))
-		probes := []string{"dual.big.test", "victim.big.test", "h0000.big.test", fmt.Sprintf("h%04d.big.test", n-1), fmt.Sprintf("h%04d.big.test", n/2), "absent.big.test", "m9-00.big.test", "m9-08.big.test", "m17-16.big.test", "m33-32.big.test", "m33-15.big.test", "m33-33.big.test"}
-		for i := 0; i < n; i += n/50 + 1 {
-			probes = append(probes, fmt.Sprintf("h%04d.big.test", i))
-		}
-		for _, p := range probes {
-			evals++
-			res, matched := e.MatchRequest(&urlfilter.DNSRequest{Hostname: p, DNSType: 1})
-			var got []string
-			for _, h := range res.HostRulesV4 {
-				got = append(got, h.RuleText)
+		for _, nLists := range []int{1, 6} {
+			ids := []int{50, 10, 40, 20, 30, 15}
+			texts := make([][]string, nLists)
+			for i, l := range lines {
+				texts[i%nLists] = append(texts[i%nLists], l)
 			}
-			for _, h := range res.HostRulesV6 {
-				got = append(got, h.RuleText)
+			var rls []filterlist.RuleList
+			for li, t := range texts {
+				rls = append(rls, &filterlist.StringRuleList{ID: ids[li], RulesText: "! header of list " + fmt.Sprint(ids[li]) + strings.Repeat("-", li) + "\n" + joinLines(t) + "\n"})
 			}
-			if !eqStrings(sortedSet(got), sortedSet(listedBy[p])) || matched != (len(listedBy[p]) > 0) {
-				c.Run.Violate(ev.Violation{Pred: "engine-returns-rule-iff-listed", Sig: map[string]any{"big_list": n, "query": p},
-					What:   fmt.Sprintf("DNSEngine over %d hosts lines, query %q: matched=%v rules=%v; the lines that list the name are %v", len(lines), p, matched, got, listedBy[p]),
-					Replay: map[string]any{"line": "0.0.0.0 example.org", "addr": "0.0.0.0", "names": []string{"example.org"}}})
-				return evals
+			stg, err := filterlist.NewRuleStorage(rls)
+			if err != nil {
+				panic(HarnessError(err.Error()))
+			}
+			e := urlfilter.NewDNSEngine(stg)
+			probes := []string{"dual.big.test", "victim.big.test", "h0000.big.test", fmt.Sprintf("h%04d.big.test", n-1), fmt.Sprintf("h%04d.big.test", n/2), "absent.big.test", "m9-00.big.test", "m9-08.big.test", "m17-16.big.test", "m33-32.big.test", "m33-15.big.test", "m33-33.big.test"}
+			for i := 0; i < n; i += n/50 + 1 {
+				probes = append(probes, fmt.Sprintf("h%04d.big.test", i))
+			}
+			for _, p := range probes {
+				evals++
+				res, matched := e.MatchRequest(&urlfilter.DNSRequest{Hostname: p, DNSType: 1})
+				var got []string
+				for _, h := range res.HostRulesV4 {
+					got = append(got, h.RuleText)
+				}
+				for _, h := range res.HostRulesV6 {
+					got = append(got, h.RuleText)
+				}
+				if !eqStrings(sortedSet(got), sortedSet(listedBy[p])) || matched != (len(listedBy[p]) > 0) {
+					c.Run.Violate(ev.Violation{Pred: "engine-returns-rule-iff-listed", Sig: map[string]any{"big_list": n, "query": p},
+						What:   fmt.Sprintf("DNSEngine over %d hosts lines, query %q: matched=%v rules=%v; the lines that list the name are %v", len(lines), p, matched, got, listedBy[p]),
+						Replay: map[string]any{"line": "0.0.0.0 example.org", "addr": "0.0.0.0", "names": []string{"example.org"}}})
+					return evals
+				}
 			}
 		}
 	}
